@@ -215,7 +215,7 @@ def make_worlds(tc, root, seed, count, resources):
         return json.load(f)["worlds"]
 
 
-def run_check(prop, mode, tier, seed, replay, resources, quick=(16, 30), thorough=(400, 200)):
+def run_check(prop, mode, tier, seed, replay, resources, quick=(16, 30), thorough=(300, 150)):
     rep = vcommon.Report(prop, level="exploration",
                          rule="evaluation = one call (function x value set) through the generated C bindings, judged in every direction it exercises; "
                               "distinct = direction x option variant x structural shapes of the parameter/result types")
